@@ -704,6 +704,22 @@ class BaseSection(base.Sectionable):
             if mine is not None:
                 mine.merge_check(obj, strict)
 
+    def _merge_name_check(self, source_section):
+        """
+        Recursively checks that no child Section of a source Section has the name but
+        not the type of a child Section of self: it is not merged with the existing
+        one, but its copy cannot be added next to it either. Raises a ValueError.
+
+        :param source_section: an odML Section.
+        """
+        for obj in source_section.sections:
+            mine = self.contains(obj)
+            if mine is not None:
+                mine._merge_name_check(obj)
+            elif obj.name in self.sections:
+                raise ValueError("odml.Section.merge: src and dest Sections '%s' "
+                                 "have different types!" % obj.name)
+
     def merge(self, section=None, strict=True):
         """
         Merges this section with another *section*.
@@ -730,6 +746,7 @@ class BaseSection(base.Sectionable):
         # its children can be merged with self and its children since
         # there is no rollback in case of a downstream merge error.
         self.merge_check(section, strict)
+        self._merge_name_check(section)
 
         if self.definition is None and section.definition is not None:
             self.definition = section.definition
